@@ -2,7 +2,7 @@
 checks the halves in parallel). -/
 import DdsModel.Proofs.ConvInt
 namespace Dds.ConvProofs
-open Dds Dds.Conv Dds.Spec
+open Dds Dds.Conv Dds.Spec Dds.ConvRange
 set_option maxRecDepth 100000
 theorem s16n8_c00 : allRange (okInt s16n8 255 (snorm 16) tieZero) 8 0 8192 = true := by decide +kernel
 theorem s16n8_c01 : allRange (okInt s16n8 255 (snorm 16) tieZero) 8 8192 8192 = true := by decide +kernel
